@@ -1534,6 +1534,10 @@ class FunctionNode(AstNode):
         # XXX - waring about unused fields in attrs
 
         fmt_func = self.fmtdict
+        if not isinstance(ast.name, str):
+            raise RuntimeError(
+                "name attribute must have a text value, for example +name(newname), "
+                "not {!r} in '{}' at line {}".format(ast.name, decl, self.linenumber))
         fmt_func.function_name = ast.name
         fmt_func.underscore_name = util.un_camel(fmt_func.function_name)
 
@@ -1828,6 +1832,10 @@ class VariableNode(AstNode):
         if ast.params is not None:
             # 'void foo()' instead of 'void foo'
             raise RuntimeError("Arguments given to variable:", ast.gen_decl())
+        if not isinstance(ast.name, str):
+            raise RuntimeError(
+                "name attribute must have a text value, for example +name(newname), "
+                "not {!r} in '{}' at line {}".format(ast.name, decl, self.linenumber))
         self.ast = ast
         self.name = ast.name
 
